@@ -819,8 +819,13 @@ pub fn finish(
     for (sig, desc) in &known_hits {
         println!("KNOWN-FINDING: property={} sig={} {}", ctx.prop, sig, desc);
     }
-    for l in &lines {
+    // at most 25 VIOLATION lines (one per failure signature, each with its replay file); all
+    // signatures are in the evidence file
+    for l in lines.iter().take(25) {
         println!("{}", l);
+    }
+    if lines.len() > 25 {
+        eprintln!("  ... and {} more failure signature(s), see the evidence file", lines.len() - 25);
     }
 
     // merge partial evidence of other configurations
